@@ -18,7 +18,10 @@ Definition order_now : list lstep :=
   end.
 Definition guarded_now : bool := match boot_rule_guarded with Known b => b | Unrecognised _ => false end.
 
-Lemma C05_facts_ok : order_now = order_src /\ boot_rule_guarded = Known true /\ apply_advances_applied_index = Known true.
+Lemma C05_facts_ok : order_now = order_src /\ boot_rule_guarded = Known true /\ apply_advances_applied_index = Known true /\
+  (* every Ready goes to the log store, also one that only advances the commit index: the durable hard state is never
+     behind what the replica has applied and compacted *)
+  save_every_ready = Known true.
 Proof. repeat split; reflexivity. Qed.
 
 (* a replica that is not the leader lets every message of a Ready leave only after that Ready's hard state (term,
